@@ -29,6 +29,15 @@ CHECKS = {
             'Trusted: the 40-line reference model (ModelEmitter) as the reading of the statement; callbacks compared '
             'by identity. Beyond depth 4 only the state-merging search applies (merging on model state).',
             'DESIGN.md §5 C20'),
+    'C04': ('exhaustive enumeration of expression trees (all shapes x operators x unary-minus placements x leaf kinds up to '
+            '3/5 binary operators) rendered three ways and evaluated by the real parser against an exact-rational tree '
+            'evaluator; ' + K3,
+            'All trees up to the size bound are enumerated, so every way the LALR table could group two or three adjacent '
+            'operators differently from the stated reading is exercised; leaves are distinct primes so a wrong grouping '
+            'changes the value. Deep chains (depth 30) cover the depth dimension deterministically.',
+            'Trusted: the 60-line renderer that encodes the stated precedence reading and the Fraction evaluator. Not '
+            'demanded: rank of & against arithmetic, chained comparisons, ^. Trees with more than 5 operators are only '
+            'covered by the deterministic chains.', 'DESIGN.md §5 C04'),
 }
 
 NOT_YET = 'check not built yet in this session (see DESIGN.md §5 for the planned bounded-exhaustive check)'
